@@ -57,6 +57,10 @@ theorem tbl_codes :
     initializeDecodeFailure = -32602 ∧ initializeNilParams = -32600 ∧
     metaInvalidClientInfo = -32602 ∧ metaInvalidCapabilities = -32602 := by decide
 
+/-- The model checks the per-request version against the transport's versions; so does the code
+(FALSE on the unrepaired tree, F34: `handle` tests `supportedProtocolVersions`). -/
+theorem tbl_per_request_transport : perRequestVersionsFromTransport = true := by decide
+
 /-- The model's preempter looks at notifications only; so does the code (FALSE on the unrepaired tree, F17). -/
 theorem tbl_preempt : preemptNotificationsOnly = true := by decide
 
@@ -85,13 +89,13 @@ theorem checkAndDecode_method {t : List (Method × Flags)} {r : Req} {m : Method
 theorem admit_cases (s : State) (r : Req) :
     (preemptDrops r = true ∧ admitReq s r = (s, .ignored)) ∨
     (preemptDrops r = false ∧ ∃ c, metaError r = some c ∧ admitReq s r = (s, reject r c)) ∨
-    (preemptDrops r = false ∧ metaError r = none ∧ unsupportedVersion r = true ∧
-      admitReq s r = (s, reject r codeUnsupportedProtocolVersion supportedProtocolVersions)) ∨
-    (preemptDrops r = false ∧ metaError r = none ∧ unsupportedVersion r = false ∧
+    (preemptDrops r = false ∧ metaError r = none ∧ unsupportedVersion s.tv r = true ∧
+      admitReq s r = (s, reject r codeUnsupportedProtocolVersion s.tv)) ∨
+    (preemptDrops r = false ∧ metaError r = none ∧ unsupportedVersion s.tv r = false ∧
       ∃ c, gate s.init.isSome (usesNew r) r.method = .refuse c ∧ admitReq s r = (s, reject r c)) ∨
-    (preemptDrops r = false ∧ metaError r = none ∧ unsupportedVersion r = false ∧
+    (preemptDrops r = false ∧ metaError r = none ∧ unsupportedVersion s.tv r = false ∧
       gate s.init.isSome (usesNew r) r.method = .pass ∧ admitReq s r = dispatch s r) ∨
-    (preemptDrops r = false ∧ metaError r = none ∧ unsupportedVersion r = false ∧
+    (preemptDrops r = false ∧ metaError r = none ∧ unsupportedVersion s.tv r = false ∧
       gate s.init.isSome (usesNew r) r.method = .passAdopt ∧ admitReq s r = dispatch (adopt s r .passAdopt) r) := by
   unfold admitReq
   by_cases hp : preemptDrops r = true
@@ -101,9 +105,9 @@ theorem admit_cases (s : State) (r : Req) :
     cases hm : metaError r with
     | some c => simp
     | none =>
-      by_cases hu : unsupportedVersion r = true
+      by_cases hu : unsupportedVersion s.tv r = true
       · simp [hu]
-      · have hu' : unsupportedVersion r = false := by simpa using hu
+      · have hu' : unsupportedVersion s.tv r = false := by simpa using hu
         simp only [hu', Bool.false_eq_true, if_false]
         cases hg : gate s.init.isSome (usesNew r) r.method with
         | refuse c => simp
@@ -222,7 +226,7 @@ theorem metaError_legacy {r : Req} (hn : usesNew r = false) : metaError r = none
   | none => rfl
   | ver v caps ci => simp [hn]
 
-theorem unsupported_legacy {r : Req} (hn : usesNew r = false) : unsupportedVersion r = false := by
+theorem unsupported_legacy {r : Req} (tv : List String) (hn : usesNew r = false) : unsupportedVersion tv r = false := by
   simp [unsupportedVersion, hn]
 
 theorem preemptDrops_noId {r : Req} (h : preemptDrops r = true) : r.hasId = false := by
